@@ -119,7 +119,7 @@ static std::string write_replay(const Ctx &ctx, const Case &c, const Verdict &v,
   for (auto &ch : m)
     if (ch == '\n' || ch == '\r')
       ch = ' ';
-  t = "# property=" + ctx.prop + "\n# " + m + "\n" + c.text();
+  t = "# property=" + ctx.prop + "\n# " + m + "\n" + (v.replay_text.empty() ? c.text() : v.replay_text);
   write_file(path, t);
   (void)g_replay_seq;
   return path;
